@@ -264,6 +264,11 @@ pub fn run(rep: &mut Rep, focus: Focus, args: &[String]) {
             r.countn(&format!("ms|{}|d{}", job.kind, job.depth), t_unit.elapsed().as_millis() as u64);
         }
     });
+    #[cfg(not(feature = "stateless"))]
+    {
+        rep.countn("rln_batch_calls_with_stale_bytes_after_the_declared_leaves", crate::trees::SLACK_CALLS.load(std::sync::atomic::Ordering::Relaxed));
+        rep.countn("rln_batch_calls_with_stale_bytes_refused_and_repeated_plain", crate::trees::SLACK_REFUSED.load(std::sync::atomic::Ordering::Relaxed));
+    }
     // a sample history with the observations made
     {
         let mut rng = rng_for(seed, "tree-sample");
